@@ -255,6 +255,9 @@ Fixpoint mapM_res {A B} (f : A -> res B) (l : list A) : res (list B) :=
 
 Record exec_out := {
   xo_agg : list (Z * Z);      (* aggregated, sorted, BEFORE limit/autocut *)
+  xo_aggfull : list (Z * Z);  (* the same aggregation over the UNtruncated per-query candidate lists
+                                 (for one query: every candidate, so that ties at the cut can be
+                                 compared as sets) *)
   xo_n : option nat;          (* number of results after limit + autocut; None = autocut panic *)
   xo_tie : bool;              (* some per-query cut fell inside a tie group *)
   xo_ptie : bool;             (* some probe cut fell inside a group of equidistant centroids *)
@@ -276,7 +279,7 @@ Definition execute (p : params) (s : vstate) (rq : request) : res exec_out :=
               let lim := limit agg (r_k rq) in
               let n := match autocut_results lim (r_cutoff rq) with
                        | Some l => Some (length l) | None => None end in
-              Ok {| xo_agg := agg; xo_n := n; xo_tie := existsb so_tie outs; xo_ptie := existsb so_ptie outs;
+              Ok {| xo_agg := agg; xo_aggfull := aggregate_vec (r_agg rq) (flat_map so_full outs); xo_n := n; xo_tie := existsb so_tie outs; xo_ptie := existsb so_ptie outs;
                     xo_single := (length allq =? 1)%nat |}
           end
       end
